@@ -50,6 +50,10 @@ ASSUMPTIONS = ['the 37 shipped listings are the files under tests/listing/*/*/ t
                'a table that the reader exposes but that is not printed at some result time, and a printed table the '
                'reader does not expose, are not compared (counted)',
                'where a row name is printed more than once, table[name] may return any of the rows of that name',
+               'a three-digit exponent printed WITH its letter (E+107) is not generated and not claimed: Ew.d/Dw.d/Gw.d/1PEw.d '
+               'drop the letter for |exponent| > 99 (0.122630+107), and Ew.dE3 prints three exponent digits on every row '
+               '(0.12264E+007), so no edit descriptor prints E+07 and E+107 in one column of one width (checked with gfortran '
+               '12.2); in the shipped files E+ddd occurs only in TOUGH3 list-directed timing lines outside the tables',
                'the integer value column of ECO2M (\'I\') is compared but not perturbed',
                'a replacement that the number grammar itself cannot split unambiguously from its neighbours is not made '
                '(counted as ambiguous_cells)']
